@@ -472,6 +472,12 @@ ALL_PROPS = tuple(f"C{i:02d}" for i in range(1, 21))
 _ANCHORS: Dict[str, Tuple[str, ...]] = {}
 
 
+# files a property's behaviour flows through although properties.jsonl does not list them (one reason each)
+_EXTRA_ANCHOR_FILES = {
+    "C01": ("src/gtirb_rewriting/scopes.py", "src/gtirb_rewriting/utils.py"),   # register_insert requests: the scope decides in which blocks and at which offset a patch's bytes appear
+}
+
+
 def anchor_files(prop: str) -> Tuple[str, ...]:
     """The source files a property is anchored in (properties.jsonl, anchors.files)."""
     if not _ANCHORS:
@@ -482,7 +488,7 @@ def anchor_files(prop: str) -> Tuple[str, ...]:
             a = p.get("anchors")
             if isinstance(a, str):
                 a = ast.literal_eval(a)
-            _ANCHORS[p["id"]] = tuple((a or {}).get("files", ()))
+            _ANCHORS[p["id"]] = tuple((a or {}).get("files", ())) + _EXTRA_ANCHOR_FILES.get(p["id"], ())
     if prop not in _ANCHORS:
         raise AnalysisError(f"no anchors for {prop}")
     return _ANCHORS[prop]
@@ -646,6 +652,13 @@ def _tree_restructured(repo: "Repo", _alpha) -> Optional[str]:
             elif n:
                 edited.append(q)
                 total += n
+        def owner(q: str) -> str:
+            # a nested function is part of the function it is defined in
+            while "." in q and q.rsplit(".", 1)[0] in repo.funcs:
+                q = q.rsplit(".", 1)[0]
+            return q
+
+        edited = sorted({owner(q) for q in edited})
         if new:
             why = f"the tree has a function the validated tree did not have (`{new[0]}`)"
         elif big:
